@@ -50,6 +50,14 @@ def run_traces(rep: Any, scenarios: list[dict[str, Any]], label: str, nontrivial
             rep.violation(f'{t["id"]}: event loop stalled' + (f' (livelock; prefix: {v["verdict"]}, {v.get("excuse")})' if t.get('livelock') else ''), payload=t)
         elif v['verdict'] != 'accepted':
             rep.violation(f'{t["id"]}: {v["verdict"]}', payload=t)
+    # the orchestrator of every run, too, against Orchestration.tla (one watcher per served pair, started once, gone at the end)
+    from vf import orchestration
+    ots = [t['orch'] for t in traces if t.get('orch')]
+    ov = orchestration.judge(ots, rep)
+    rep.evaluations += len(ots); rep.traces += len(ots)
+    for ot in ots:
+        if ov[ot['id']]['verdict'] != 'accepted':
+            rep.violation(f'{ot["id"]}: the orchestrator is not a behaviour of Orchestration.tla: {ov[ot["id"]]["verdict"]}', payload=ot)
     if traces:
         t = traces[len(traces) // 2]
         rep.sample({'scenario': t['scenario'], 'trace_head': t['events'][:12]})
